@@ -515,6 +515,11 @@ def g8(ctx):
             if T is None or F is None:
                 continue
             n += 1
+            # the transfer happens on every merge: the only reason to skip it would be that the DEPRECATED class has no symmetries
+            C.check_only_allowed_skips(ctx, b, c.bb, [
+                ("false", lambda t, cond: t.startswith("is_trivial(") and role_str(F) in t and role_str(T) not in t),
+                ("true", lambda t, cond: False),
+            ], "symmetry-transfer:" + C.fkey(b), "handing the deprecated class's generators to the survivor")
             ctx.check(T != F, "transfer-between-classes:" + C.fkey(b), "generators of %s go to the group of %s" % (role_str(F), role_str(T)), "the merge re-adds a class's generators to its own group", where_of(b, c.bb))
             # every slot-map lookup inside the transporting closures uses a map  F.m ; T.m^-1
             maps = []
